@@ -338,7 +338,8 @@ Inductive sop :=
 | SCodeRequired (default_in_required : bool)       (* schema_to_struct_code on a schema whose required list names a property with a default *)
 | SSchemaRequired (touches : bool)                 (* structure_to_schema on a class with a defaulted / renamed / dropped field *)
 | SSchemaDefault (mutable_default : bool)          (* structure_to_schema on a class whose field has a list/dict default *)
-| SConvertDict.
+| SConvertDict
+| SVersionedDeser (typed_or_immutable : bool).                                 (* Deserializer of a Versioned class: a field of the input document, typed or not *)
 
 Definition predict_sop (sv : sites) (o : sop) : bool * bool * bool :=
   match o with
@@ -347,6 +348,9 @@ Definition predict_sop (sv : sites) (o : sop) : bool * bool * bool :=
   | SSchemaDefault b => (false, false, b && negb (eff_safe (s_schema_default sv)))
   | SConvertDict =>
       (false, false, negb (eff_deep (s_convert_dict sv)) || negb (eff_deep (s_convert_step sv)))
+  | SVersionedDeser _ =>
+      (* the document is deep-copied by convert_dict before anything is taken from it: not even an untyped value is shared *)
+      (negb (eff_safe (s_convert_dict sv)), negb (eff_deep (s_convert_dict sv)), false)
   end.
 
 (* the sites whose recorded effect is outside {Copies, DeepCopies}: the defects the model predicts *)
